@@ -32,7 +32,28 @@ TRUSTED = [
     "regex \\w is modelled for ASCII only; keys that are Cartesian keywords (include, variants, join, suffix, del) or "
     "reserved (name, shortname, dep, cartgraph_verbose_level) and values with quotes, '$', '#', leading/trailing "
     "white space are outside the generated K=V class",
+    "translator tie (step_matches_source, loop_matches_source, paramsFromCmd_matches_source): harness/pygen.py (Python "
+    "AST -> Lean `do` block, fails closed) on the body of the tokenizing loop, which harness/pygen_pxcmd.py cuts out of "
+    "params_from_cmd (exactly one top level `for cmd_param in config[\"params\"]`, no return / break / continue of "
+    "that loop; the statements in front of it are pinned and stand for St.init); the atom table CMD spec of "
+    "harness/pygen_pxcmd.py: the regular expressions are the hand recognisers splitArg / netsKey / vmKey, every "
+    "statement that updates the loop state is pinned verbatim to a named action of StateT St (Except Err) printed in "
+    "I2N/Extracted/GenCmd.lean (among them the two inner loops: primary detection, and the first-matching-vm search "
+    "with its `else: raise`); log-only variables and exception messages dropped",
 ]
+
+
+def extract(ctx):
+    """second tie: the body of the tokenizing loop of params_from_cmd translated to Lean from the CURRENT source
+    (raises pygen.Unsupported when it left the translated subset / a pinned statement changed; run.py records that
+    as a proof problem and searches for a failing input)"""
+    import pygen_pxcmd
+    if pygen_pxcmd.extract_cmd(ctx):
+        ctx.notes.append("I2N/Extracted/GenCmd.lean changed: the source of the tokenizing loop of params_from_cmd "
+                         "differs from the one the committed file was generated from (step_matches_source is "
+                         "re-checked)")
+    ctx.extra["regenerated"] = ("lean/I2N/Extracted/GenCmd.lean (loop body of params_from_cmd via "
+                                "harness/pygen_pxcmd.py + harness/pygen.py)")
 
 US, RS = "\x1f", "\x1e"
 ERRS = {"ValueError": "valueError", "EmptyCartesianProduct": "emptyProduct", "ParserError": "parserError",
